@@ -1,6 +1,7 @@
 package sim
 
 import (
+	"crypto/sha256"
 	"fmt"
 	"time"
 
@@ -46,10 +47,20 @@ func linearizableBatch(before map[[32]byte][]byte, ops []histOp, pruneable bool)
 		}
 		byID[o.id] = append(byID[o.id], o)
 	}
+	// values are compared by a short digest: the states are copied at every step of the search
+	tag := func(v []byte) string {
+		h := sha256.Sum256(v)
+		return "v" + string(h[:10])
+	}
 	for _, id := range order {
+		if len(byID[id]) > 14 {
+			// the search is exponential in the number of overlapping operations on one register: larger
+			// partitions are left to the cheaper oracles (never reported either way)
+			continue
+		}
 		init := regAbsent
 		if v, ok := before[id]; ok {
-			init = "v" + string(v)
+			init = tag(v)
 		}
 		alt := func(s string) []interface{} {
 			if pruneable && s != regAbsent {
@@ -63,11 +74,11 @@ func linearizableBatch(before map[[32]byte][]byte, ops []histOp, pruneable bool)
 				st, in, out := state.(string), input.(regIn), output.(regOut)
 				switch {
 				case !in.isGet && out.ok:
-					return alt("v" + in.val)
+					return alt(in.val)
 				case !in.isGet:
 					return alt(st) // refused for insufficient radius: nothing changes
 				case out.ok:
-					if st == "v"+out.val {
+					if st == out.val {
 						return alt(st)
 					}
 					return nil
@@ -82,7 +93,7 @@ func linearizableBatch(before map[[32]byte][]byte, ops []histOp, pruneable bool)
 		}
 		var hist []porcupine.Operation
 		for _, o := range byID[id] {
-			hist = append(hist, porcupine.Operation{ClientId: o.client, Input: regIn{o.isGet, string(o.val)}, Output: regOut{o.ok, string(o.val)}, Call: int64(o.call), Return: int64(o.ret)})
+			hist = append(hist, porcupine.Operation{ClientId: o.client, Input: regIn{o.isGet, tag(o.val)}, Output: regOut{o.ok, tag(o.val)}, Call: int64(o.call), Return: int64(o.ret)})
 		}
 		switch porcupine.CheckOperationsTimeout(nm.ToModel(), hist, 20*time.Second) {
 		case porcupine.Illegal:
